@@ -18,8 +18,13 @@ structure Acl where
 deriving Repr, Inhabited
 
 /-- `CanAppend` of the ipfs/simple/orbitdb controllers: membership of `identity.id` in the write
-list (or `*`), then `VerifyIdentity`, which at the pinned dependency version returns nil. -/
-def Acl.canAppend (a : Acl) (e : Entry) : Bool := a.wildcard || a.ids.contains e.ident
+list (or `*`), then `VerifyEntryAuthor` (after the `fix:` commit): the entry's key is the identity's
+key and the identity block is genuine. (`VerifyIdentity` of the dependency returns nil.) -/
+def Acl.canAppend (a : Acl) (e : Entry) : Bool :=
+  (a.wildcard || a.ids.contains e.ident) && e.key == e.ident && e.identOk
+
+/-- the pinned tree's `CanAppend` (finding F3): only the id named by the entry is looked at -/
+def Acl.canAppendPinned (a : Acl) (e : Entry) : Bool := a.wildcard || a.ids.contains e.ident
 
 structure Store where
   kind        : Kind := .kv
@@ -51,18 +56,36 @@ def syncPrecheck (acl : Acl) : List Entry → Err
   | h :: hs => if !acl.canAppend h then syncPrecheck acl hs
                else if !h.hashOk then .hashMismatch else syncPrecheck acl hs
 
-/-- joins of `replicationLoadComplete`: each log in turn, abort on the first error (keeping the
-joins already done) -/
-def joinAll (acl : Acl) (L : Log) : List (OMap × OMap) → Log × Bool
-  | [] => (L, true)
+/-- joins of `replicationLoadComplete`: each log in turn; a rejected log is skipped (after the
+`fix:` commit — the pinned tree aborted at the first error, see `joinAllPinned`) -/
+def joinAll (acl : Acl) (L : Log) : List (OMap × OMap) → Log
+  | [] => L
   | (es, hs) :: rest =>
     match join acl.canAppend L es hs L.id with
     | .ok L' => joinAll acl L' rest
+    | .error _ => joinAll acl L rest
+
+/-- `replicationLoadComplete(logs)`: join, update the index, put `_remoteHeads`, update the status -/
+def Store.loadEnd (acl : Acl) (s : Store) (logs : List (OMap × OMap)) : Store :=
+  let L' := joinAll acl s.log logs
+  let idx := updateIndex s.kind s.idx L'
+  let heads := (sortedHeads L').map (·.hash)
+  let len : Int := L'.entries.length
+  let st := if len > s.status.progress then recalcStatus len s.status len else s.status
+  { s with log := L', idx := idx, remoteHeads := some heads, status := st }
+
+/-- joins of the **pinned** `replicationLoadComplete` (finding F6, repaired): abort on the first
+error, keeping the joins already done -/
+def joinAllPinned (acl : Acl) (L : Log) : List (OMap × OMap) → Log × Bool
+  | [] => (L, true)
+  | (es, hs) :: rest =>
+    match join acl.canAppend L es hs L.id with
+    | .ok L' => joinAllPinned acl L' rest
     | .error _ => (L, false)
 
-/-- `replicationLoadComplete(logs)` -/
-def Store.loadEnd (acl : Acl) (s : Store) (logs : List (OMap × OMap)) : Store × Bool :=
-  match joinAll acl s.log logs with
+/-- the pinned `replicationLoadComplete(logs)` -/
+def Store.loadEndPinned (acl : Acl) (s : Store) (logs : List (OMap × OMap)) : Store × Bool :=
+  match joinAllPinned acl s.log logs with
   | (L', false) => ({ s with log := L' }, false)
   | (L', true) =>
     let idx := updateIndex s.kind s.idx L'
